@@ -7,6 +7,7 @@ package main
 import (
 	"fmt"
 	"go/token"
+	"math/big"
 	"sort"
 	"strings"
 
@@ -795,6 +796,14 @@ func (ps *protoSpec) specZeroPredicate(rule, want string, zterm *pt) {
 		case pInt:
 			t := c.t
 			ok = t.op == "eqb" && ((pVal(t.args[0]).String() == zterm.String() && pVal(t.args[1]).String() == "0") || (pVal(t.args[1]).String() == zterm.String() && pVal(t.args[0]).String() == "0"))
+		case sInt:
+			// a path that has already decided the predicate: 1 only where the value is zero, 0 only where it is not
+			switch {
+			case c.v.Cmp(big.NewInt(1)) == 0:
+				ok = ps.prove(o, zterm, token.EQL, pC(0))
+			case c.v.Sign() == 0:
+				ok = ps.prove(o, zterm, token.NEQ, pC(0))
+			}
 		}
 		ps.need(rule, ok, "the predicate returns %s; required meaning: %s", ps.d.show(o.st, o.vals[0]), want)
 	}
